@@ -386,6 +386,20 @@ class SqlImpl(TableImpl):
                     else:
                         needed_cols[node._uuid] = cnt + 1
 
+            union_cols = []
+            if isinstance(nd, verbs.Union):
+                # Whole rows of both operands take part in a union (they are compared
+                # if it is distinct), whatever is selected later on. Thus, subqueries
+                # below the union must not drop any visible column of the operands.
+                from pydiverse.transform._internal.pipe.cache import Cache
+
+                union_cols = [
+                    *Cache.from_ast(nd.child).uuid_to_name.keys(),
+                    *Cache.from_ast(nd.right).uuid_to_name.keys(),
+                ]
+                for uid in union_cols:
+                    needed_cols[uid] = needed_cols.get(uid, 0) + 1
+
             table, query, sqa_expr = cls.compile_ast(nd.child, needed_cols)
 
         if isinstance(nd, verbs.Mutate | verbs.Summarize):
@@ -614,6 +628,11 @@ class SqlImpl(TableImpl):
                         del needed_cols[node._uuid]
                     else:
                         needed_cols[node._uuid] = cnt - 1
+            for uid in union_cols:
+                if needed_cols[uid] == 1:
+                    del needed_cols[uid]
+                else:
+                    needed_cols[uid] -= 1
 
         return table, query, sqa_expr
 
